@@ -156,20 +156,21 @@ __CPROVER_ensures (gh_k < TOPLEN (os) ==> os->os_top_object_start[gh_k] == gh_by
 void rule_add_c (struct symb *symb)
 __CPROVER_requires (rules_ptr != NULL && rules_ptr->curr_rule != NULL && RHSLEN >= 0 && RHSLEN < RCAP && rules_ptr->n_rhs_lens >= 0 && rules_ptr->n_rhs_lens < 100000)
 __CPROVER_requires (TOPLEN (ROS) == ((size_t) RHSLEN + 1) * sizeof (struct symb *))                    /* the top object of the rule storage is the open array: rhs_len symbols and the end marker */
-__CPROVER_requires (gh_k < (size_t) RHSLEN * sizeof (struct symb *) && gh_byte == ROS->os_top_object_start[gh_k] || gh_k >= (size_t) RHSLEN * sizeof (struct symb *))
-__CPROVER_assigns (rules_ptr->curr_rule->rhs, RHSLEN, rules_ptr->n_rhs_lens, rules_ptr->rules_os, gh_newlen, __CPROVER_object_from (ROS->os_top_object_free))
+__CPROVER_requires (gh_k < TOPLEN (ROS) ==> gh_byte == ROS->os_top_object_start[gh_k])
+__CPROVER_assigns (rules_ptr->curr_rule->rhs, RHSLEN, rules_ptr->n_rhs_lens, rules_ptr->rules_os, gh_newlen, __CPROVER_object_from (ROS->os_top_object_free - sizeof (struct symb *)))      /* in place: from the old end marker on */
 __CPROVER_ensures (RHSLEN == __CPROVER_old (RHSLEN) + 1 && rules_ptr->n_rhs_lens == __CPROVER_old (rules_ptr->n_rhs_lens) + 1)
 __CPROVER_ensures ((char *) rules_ptr->curr_rule->rhs == ROS->os_top_object_start && TOPLEN (ROS) == ((size_t) RHSLEN + 1) * sizeof (struct symb *))
 __CPROVER_ensures (rules_ptr->curr_rule->rhs[RHSLEN - 1] == symb && rules_ptr->curr_rule->rhs[RHSLEN] == NULL)
 __CPROVER_ensures (gh_k < ((size_t) RHSLEN - 1) * sizeof (struct symb *) ==> ((char *) rules_ptr->curr_rule->rhs)[gh_k] == gh_byte)
 ;
-/* rule_new_stop: the array is finished where it is (same bytes); the order array is a new object of rhs_len entries, all -1 (none for an empty right-hand side); the top object is empty again */
+/* rule_new_stop: the array is finished where it is (same bytes); the order array is a new object of rhs_len entries, all -1 (an empty object for an empty right-hand side); the top object is empty again */
 void rule_stop_c (void)
 __CPROVER_requires (rules_ptr != NULL && rules_ptr->curr_rule != NULL && RHSLEN >= 0 && RHSLEN <= RCAP)
 __CPROVER_requires (TOPLEN (ROS) == ((size_t) RHSLEN + 1) * sizeof (struct symb *) && (char *) rules_ptr->curr_rule->rhs == ROS->os_top_object_start)
 __CPROVER_requires (gh_k < TOPLEN (ROS) && gh_byte == ROS->os_top_object_start[gh_k])
 __CPROVER_assigns (rules_ptr->curr_rule->order, rules_ptr->rules_os, gh_newlen, __CPROVER_object_from (ROS->os_top_object_free))
-__CPROVER_ensures (RHSLEN == 0 ? rules_ptr->curr_rule->order == NULL : (rules_ptr->curr_rule->order != NULL && OFF (rules_ptr->curr_rule->order) % sizeof (int) == 0))
+/* (for an empty right-hand side the order array is an empty object: a non-NULL pointer that is never dereferenced) */
+__CPROVER_ensures (rules_ptr->curr_rule->order != NULL && OFF (rules_ptr->curr_rule->order) % sizeof (int) == 0 && (char *) rules_ptr->curr_rule->order == ROS->os_top_object_start - (RHSLEN == 0 ? 0 : (((size_t) RHSLEN * sizeof (int) + _OS_ALIGNMENT - 1) / _OS_ALIGNMENT) * _OS_ALIGNMENT))
 __CPROVER_ensures ((RHSLEN > 0 && gh_oi < (size_t) RHSLEN) ==> rules_ptr->curr_rule->order[gh_oi] == -1)
 __CPROVER_ensures (TOPLEN (ROS) == 0)
 __CPROVER_ensures (((char *) rules_ptr->curr_rule->rhs)[gh_k] == gh_byte)                                                  /* the finished array has not moved and has not changed */
@@ -185,14 +186,14 @@ static void world_rhs (void)
   rules_ptr->curr_rule = malloc (sizeof (struct rule)); __CPROVER_assume (rules_ptr->curr_rule != NULL);
   __CPROVER_assume (n >= 0 && n <= RCAP); rules_ptr->curr_rule->rhs_len = n; len = ((size_t) n + 1) * sizeof (struct symb *);
   /* a segment whose top object is the open array */
-  __CPROVER_assume (L >= 1 && L <= CAP + RCAP * 16 && so >= PAY && so % _OS_ALIGNMENT == 0 && so + len <= PAY + L);
+  __CPROVER_assume (L >= 1 && L <= CAP + RCAP * 16 && so >= PAY && so <= PAY + L && so % _OS_ALIGNMENT == 0 && so + len <= PAY + L);
   os->os_current_segment = malloc (L + HDR); __CPROVER_assume (os->os_current_segment != NULL);
   os->os_top_object_start = SEGB (os) + so; os->os_top_object_free = os->os_top_object_start + len; os->os_boundary = SEGB (os) + PAY + L;
   HAVOC (os->os_alloc); __CPROVER_assume (os->os_alloc != NULL); os->initial_segment_length = L;
   rules_ptr->curr_rule->rhs = (struct symb **) os->os_top_object_start; rules_ptr->curr_rule->rhs[n] = NULL; rules_ptr->curr_rule->order = NULL;
 }
 void h_rule_add (void) { struct symb *s; world_rhs (); __CPROVER_assume (RHSLEN < RCAP);
-  if (gh_k < (size_t) RHSLEN * sizeof (struct symb *)) gh_byte = ROS->os_top_object_start[gh_k];
+  if (gh_k < TOPLEN (ROS)) gh_byte = ROS->os_top_object_start[gh_k];
   rule_new_symb_add (s); if (RHSLEN == RCAP) VACUITY_CANARY_N ("longest array"); else VACUITY_CANARY_N ("shorter"); }
 void h_rule_stop (void) { world_rhs (); __CPROVER_assume (gh_k < TOPLEN (ROS)); gh_byte = ROS->os_top_object_start[gh_k];
   rule_new_stop (); if (RHSLEN == 0) VACUITY_CANARY_N ("empty right-hand side"); else VACUITY_CANARY_N ("order array made"); }
